@@ -952,8 +952,8 @@ def run(ctx):
                         'automatic weights of a separated axis with fewer than two points are undefined (IndexError) — outside the quantifier',
                         'weights under rotation are not part of the statement (rotated() drops them, rotate() keeps the cached value): recorded, not judged',
                         'make_fft_grid float truncation is taken as given when the exact value is within 1e-6 of an integer and fov is inexact (boundary_skipped)']
-    n_hist = ctx.scale(1800, 13000)
-    n_ctor = ctx.scale(1000, 7000)
+    n_hist = ctx.scale(1800, 8500)
+    n_ctor = ctx.scale(1000, 5000)
     cases = list(DIRECTED)
     for k in range(n_hist):
         cases.append(gen_history(ctx.rng, big=(ctx.tier == 'thorough' and k % 4 == 0)))
